@@ -8,7 +8,7 @@ from .. import cv, gen, lib, ref
 from ..lib import call
 
 PROP = "C19"
-PLAN = {"quick": (3000, 300), "thorough": (80000, 3000)}
+PLAN = {"quick": (3000, 300), "thorough": (50000, 3000)}
 STEP_BUDGET = 4_000_000  # line events inside while-loops per call; 100 capped Newton iterations x 5 starts x pieces on a rational cubic stay below 1e6
 RULE = ("case = (curve, point); polylines (degree 1, 1-12 segments, 2-D / 3-D, non uniform knots) with points off the "
         "curve, points sampled on the curve, points equidistant from two segments; polylines with a zero-length segment "
